@@ -650,6 +650,8 @@ package main
 //@   at_call redactPipelineStage#7 the-sub-key-is-on-the-path-handed-down {C14,C05}: len(arg_keyPath) >= 1 && arg_keyPath[len(arg_keyPath)-1] == subK && (matchAny(redactedFieldsRegexp, selems(arg_keyPath), off(arg_keyPath), len(arg_keyPath)) || !reMatch(redactedFieldsRegexp, subK))
 //@   at_call redactPipelineStage#8 the-sub-key-is-on-the-path-handed-down {C14,C05}: len(arg_keyPath) >= 1 && arg_keyPath[len(arg_keyPath)-1] == subK && (matchAny(redactedFieldsRegexp, selems(arg_keyPath), off(arg_keyPath), len(arg_keyPath)) || !reMatch(redactedFieldsRegexp, subK))
 //@   at_call redactPipelineStage#12 the-sub-key-is-on-the-path-handed-down {C14,C05}: len(arg_keyPath) >= 1 && arg_keyPath[len(arg_keyPath)-1] == subK && (matchAny(redactedFieldsRegexp, selems(arg_keyPath), off(arg_keyPath), len(arg_keyPath)) || !reMatch(redactedFieldsRegexp, subK))
+//@   at_call (*orderedmap.OrderedMap).Set@newMap field-path-references-are-renamed {C15}: implies(redactFieldNames && isDollar(v) && (opMeta == nil || opMeta == VOp(2)), value == VStr(HashNameSpec(redactedString, strOf(v))) || (value == v && isTableKey(strOf(v))))
+//@   at_call (*orderedmap.OrderedMap).Set@newSubMap field-path-references-are-renamed {C15}: implies(redactFieldNames && isDollar(subV) && !subFound, value == VStr(HashNameSpec(redactedString, strOf(subV))) || (value == subV && isTableKey(strOf(subV))))
 //@   at_call (*orderedmap.OrderedMap).Set@newPipelineMap facet-entry-relation {C01,C02,C03,C04,C05,C12,C14,C15,C19}: key == subK && FacetEntryRel(subV, value)
 //@   ensures key-path-frame: unchangedBelowExcept("Arr:Str", base(keyPath))
 //@   at_call redactPipelineStage search-mode-is-decided-for-each-stage-on-its-own {C01,C02,C03,C04,C05,C12,C14,C15,C19}: implies(len(arg_keyPath) == 0, IsSearch(arg_stage, arg_inSearchStage))
